@@ -117,6 +117,24 @@ func canaryRead() string {
 	return "r"
 }
 
+const keptChangedMarker = "KEPT-VALUE-CHANGED-SINCE-DECODE: "
+
+// keptChanged scans results for the marker an inspect-kept operation leaves
+// when a value a task decoded earlier is no longer what the decoder returned.
+func keptChanged(c *core.Ctx, phase string, plans []taskPlan, res [][]string) {
+	for ti := range res {
+		for oi, r := range res[ti] {
+			if strings.HasPrefix(r, keptChangedMarker) && !c.Failed() {
+				line := r[len(keptChangedMarker):]
+				if i := strings.Index(line, "\n"); i >= 0 {
+					line = line[:i]
+				}
+				c.Fail("decoded-value", "C12/decoded-value-changed/"+gen.PathClass(line), "%s: task %d: %s: a value this task decoded earlier changed after later decode calls (its own or another task's): %s", phase, ti, plans[ti].ops[oi].name, line)
+			}
+		}
+	}
+}
+
 type taskPlan struct {
 	ops []*op
 }
@@ -168,6 +186,7 @@ func run(c *core.Ctx) {
 	notDriven := 0
 	for ti := range plans {
 		nOps := 1 + t.Draw(maxOps)
+		var later []*op
 		for oi := 0; oi < nOps; oi++ {
 			var o *op
 			switch x := t.Draw(10); {
@@ -183,13 +202,20 @@ func run(c *core.Ctx) {
 			case x < 8:
 				o = e.formatOp(t)
 			default:
-				o = decodeOp(t, ti)
+				var insp *op
+				o, insp = decodeOp(t, ti)
+				if insp != nil {
+					later = append(later, insp)
+				}
 			}
 			if o == nil {
 				o = e.formatOp(t)
 			}
 			plans[ti].ops = append(plans[ti].ops, o)
 		}
+		// values a task decoded and kept are looked at again after its other operations (and,
+		// under a schedule, after whatever the other tasks decoded in between)
+		plans[ti].ops = append(plans[ti].ops, later...)
 	}
 	if canary {
 		plans = []taskPlan{{ops: []*op{{name: "canaryWrite", run: canaryWrite}}}, {ops: []*op{{name: "canaryRead", run: canaryRead}}}}
@@ -258,6 +284,7 @@ func run(c *core.Ctx) {
 	taskSteps := make([]int64, nTasks)
 	if !canary {
 		ref, taskSteps = seqPass("sequential pass 1", true)
+		keptChanged(c, "sequential pass 1", plans, ref)
 		if c.Failed() {
 			finish(c, nil)
 			return
@@ -395,6 +422,7 @@ func run(c *core.Ctx) {
 	if !c.Failed() && gen.Fingerprint(v, w) != fpBase {
 		reportWrite("after the join", "(some operation of the concurrent phase)")
 	}
+	keptChanged(c, "under the schedule", plans, got)
 	if !c.Failed() {
 		if ti, oi := firstDiff(ref, got); ti >= 0 {
 			o := plans[ti].ops[oi]
@@ -530,19 +558,64 @@ func finish(c *core.Ctx, s *sched.S) {
 
 // ---------------------------------------------------------------- decoding independent inputs
 
+var shortTexts = []string{"Hi", "a", "ok", "é", "-", "x y", "longer text here", "<b>bold</b>", "12", ""}
+
+// independentDoc writes an ActivityStreams document with encoding/json (not
+// with the library), using admissible shapes the library's encoder never
+// emits itself.
+func independentDoc(t *core.Tape) []byte {
+	txt := func() string { return shortTexts[t.Draw(len(shortTexts))] }
+	langMap := func() map[string]string {
+		m := map[string]string{}
+		for _, l := range []string{"en", "fr", "de"}[:1+t.Draw(3)] {
+			m[l] = txt()
+		}
+		return m
+	}
+	doc := map[string]any{
+		"id":   fmt.Sprintf("https://independent.example/%d", t.Draw(1000)),
+		"type": []string{"Note", "Article", "Person", "Create", "Collection"}[t.Draw(5)],
+	}
+	for _, prop := range []string{"name", "summary", "content", "preferredUsername"} {
+		switch t.Draw(4) {
+		case 0:
+			doc[prop] = langMap()
+		case 1:
+			doc[prop] = txt()
+		}
+	}
+	if t.Bool(1, 2) {
+		doc["attributedTo"] = map[string]any{"id": "https://independent.example/actor", "type": "Person", "name": langMap()}
+	}
+	if t.Bool(1, 2) {
+		doc["to"] = []string{"https://www.w3.org/ns/activitystreams#Public", "https://independent.example/followers"}
+	}
+	if t.Bool(1, 3) {
+		doc["object"] = map[string]any{"id": "https://independent.example/o", "type": "Note", "content": langMap()}
+	}
+	b, _ := json.Marshal(doc)
+	return b
+}
+
 // decodeOp builds "decode a private input": every task gets its own value,
 // its own bytes and its own receiver. JSON inputs may be damaged by a wire
 // fault (error paths then run concurrently too); gob inputs are canonicalised
 // first (gobcanon), so that one seed yields one byte string.
-func decodeOp(t *core.Tape, task int) *op {
+func decodeOp(t *core.Tape, task int) (*op, *op) {
 	k := gen.Knobs{MaxDepth: 1 + t.Draw(2), FieldP: 2 + t.Draw(6), MaxList: 2, Budget: 8, Links: true}
 	g := gen.New(t, k)
-	which := t.Draw(4)
+	which := t.Draw(5)
 	val := g.Top()
 	var data []byte
 	var name string
 	var dec func([]byte) (any, error)
 	switch which {
+	case 4:
+		// a document from an independent writer, in shapes the library's own encoder does not
+		// produce: language maps under the plain term, very short texts, nested objects
+		data = independentDoc(t)
+		name = "pkg.UnmarshalJSON"
+		dec = func(b []byte) (any, error) { return ap.UnmarshalJSON(b) }
 	case 0, 1:
 		data, _ = ap.MarshalJSON(val)
 		name = "pkg.UnmarshalJSON"
@@ -570,14 +643,17 @@ func decodeOp(t *core.Tape, task int) *op {
 		}
 	}
 	damaged := false
-	if t.Bool(1, 3) && len(data) > 0 {
+	if which != 4 && t.Bool(1, 3) && len(data) > 0 {
 		prog := wire.DrawProgram(t, len(data), 2, []string{wire.Truncate, wire.BitFlip, wire.DropChunk, wire.ZeroChunk})
 		data = wire.Run(data, prog, nil)
 		damaged = true
 	}
 	input := append([]byte{}, data...)
 	label := fmt.Sprintf("decode:%s(private %d bytes, damaged=%v)", name, len(input), damaged)
-	return &op{name: label, run: func() string {
+	keep := t.Bool(1, 2)
+	var kept any // the task's private variable holding what it decoded
+	var keptDump string
+	decode := &op{name: label, run: func() string {
 		// the decoder gets its own copy every time: it may keep or modify what it is given
 		b := append([]byte{}, input...)
 		val, err := dec(b)
@@ -585,9 +661,35 @@ func decodeOp(t *core.Tape, task int) *op {
 		if err != nil {
 			res.sb.WriteString("err;")
 		}
+		dump := ""
 		if val != nil {
-			res.sb.WriteString(strings.Join(gen.DumpLines(val, false), "\n"))
+			dump = strings.Join(gen.DumpLines(val, false), "\n")
+			res.sb.WriteString(dump)
+		}
+		if keep {
+			kept, keptDump = val, dump
 		}
 		return res.sb.String()
 	}}
+	if !keep {
+		return decode, nil
+	}
+	// a decoded value belongs to the caller: nothing another goroutine decodes later may change it
+	inspect := &op{name: fmt.Sprintf("inspect-kept:%s(%d bytes)", name, len(input)), run: func() string {
+		if kept == nil {
+			return "nil"
+		}
+		out := strings.Join(gen.DumpLines(kept, false), "\n")
+		if out != keptDump {
+			// what a decoder returned belongs to the caller; nothing decoded later may change it
+			out = keptChangedMarker + gen.Diff(strings.Split(keptDump, "\n"), strings.Split(out, "\n")) + "\n" + out
+		}
+		if it, ok := kept.(ap.Item); ok {
+			if b, err := ap.MarshalJSON(it); err == nil {
+				out += "\njson=" + string(b)
+			}
+		}
+		return out
+	}}
+	return decode, inspect
 }
